@@ -487,7 +487,7 @@ package board
 //@   ensures [sound] implies(result, !legal(pos(b), gmv()))
 //@   modifies nothing
 //@   nopanic
-//@   timeout 300
+//@   timeout 600
 //@   # completeness: every `return false` names a legal move (witness)
 //@   at-return 1 requires [witness1*] legal(pos(b), witMove(pos(b), uint8((((pawns << 8) &^ occ) >> 8).LowestSet()), uint8((((pawns << 8) &^ occ) >> 8).LowestSet() + 8)))
 //@   at-return 2 requires [witness2*] legal(pos(b), witMove(pos(b), uint8(wcFrom(pawns, opp)), uint8(wcTo(pawns, opp))))
@@ -562,7 +562,7 @@ package board
 //@ define specKingSq(p) = kingOf(p, stm(p))
 //@ lemma singleCheckReplies(p $Pos, m $Mv)
 //@   props C09
-//@   timeout 300
+//@   timeout 600
 //@   split pieceAt(p, mvFrom(m)) in 1..5
 //@   hyp validPos(p) && inCheck(p, stm(p)) && legal(p, m) && pieceAt(p, mvFrom(m)) != 6
 //@   concl [single] implies(onehot(attackersTo(p, other(stm(p)), occOf(p), tz8(specKingSq(p)))), capSq(p, m) == tz8(attackersTo(p, other(stm(p)), occOf(p), tz8(specKingSq(p)))) || has(between(tz8(specKingSq(p)), tz8(attackersTo(p, other(stm(p)), occOf(p), tz8(specKingSq(p))))), mvTo(m)))
